@@ -20,7 +20,7 @@ def known_ids(prop):
     return {k["id"]: k for k in load_known_findings() if k.get("kind") == "known" and prop in k.get("properties", [k.get("property")])}
 
 
-def run_prog_check(prop, props_files, tier, oracles, features=gen_prog.ALL, n_quick=4000, n_thorough=60000, rule="", extra=None, max_bodies=4, max_ops=6):
+def run_prog_check(prop, props_files, tier, oracles, features=gen_prog.ALL, n_quick=4000, n_thorough=60000, rule="", extra=None, max_bodies=4, max_ops=6, scenarios=(0, 0)):
     """oracles: list of names among c08, c03, c13, objects:<PROP>.  Violations of the implementation's own traces
     are reported with the program as replay; a model/implementation disagreement without an oracle failure
     is reported as a broken correspondence (no-failing-input-found)."""
@@ -47,6 +47,18 @@ def run_prog_check(prop, props_files, tier, oracles, features=gen_prog.ALL, n_qu
     for i in range(n):
         wild = (i % 6 == 0)
         cases.append(gen_prog.gen_case(rng, wild=wild, features=features, max_bodies=max_bodies, max_ops=max_ops))
+    nscn = scenarios[0] if tier == "quick" else scenarios[1]
+    for i in range(nscn // 3):
+        c = gen_prog.gen_scenario(rng)
+        cases.append(c)
+        # the same program under two more schedules
+        f = c.split(" ")
+        for _ in range(2):
+            f[2] = gen_prog.gen_script(rng)
+            cases.append(" ".join(f))
+    ctx.dist("generated.random", n)
+    ctx.dist("generated.scenario", nscn)
+    ctx.dist("corpus", ncorpus)
     mo, io, mism = ctx.differential("prog", cases)
     ctx.log("prog layer: %d cases (%d corpus), %d model/impl mismatches" % (len(cases), ncorpus, len(mism)))
     known = known_ids(prop)
@@ -110,6 +122,26 @@ def run_prog_check(prop, props_files, tier, oracles, features=gen_prog.ALL, n_qu
     for t, v in terms.items():
         ctx.dist("termination." + t, v)
     ctx.disagreements_checked = len(mism)
+    # A disagreement in the *verdict* is a concrete failing input for the properties whose subject is the verdict: the
+    # model's verdict is the one the theorems of the Props file are about (exact deadlock verdicts for C03, the step
+    # bound for C13, failure reports for C12), and both sides ran the same program under the same scripted schedule.
+    nverd = 0
+    for i in mism:
+        tm = proglayer.parse_trace(mo[i])
+        ti = proglayer.parse_trace(io[i])
+        if tm is None or ti is None:
+            continue
+        vm, vi = tm[1], ti[1]
+        km, ki = vm.split(":")[0], vi.split(":")[0]
+        msg = None
+        if prop == "C03" and vm != vi and ("deadlock" in (km, ki)):
+            msg = "verdict differs on the same program and schedule: the implementation ends with '%s', the verified model with '%s'" % (vi, vm)
+        elif prop == "C13" and km != ki and ("stepbound" in (km, ki)):
+            msg = "step-bound verdict differs on the same program and schedule: implementation '%s', verified model '%s'" % (vi, vm)
+        if msg:
+            nverd += 1
+            if nverd <= 3:
+                ctx.violation({"layer": "prog", "cases": [cases[i]], "implementation_trace": io[i][:3000], "model_trace": mo[i][:3000], "why": msg})
     if mism:
         ex = [{"case": cases[i], "model": mo[i][-600:], "impl": io[i][-600:]} for i in mism[:3]]
         ctx.broken.append({"kind": "correspondence", "layer": "prog",
